@@ -10,11 +10,11 @@ class MatrixOfCellIdentifiersExpressionTokenTranslator(AbstractTranslator):
         from excel2pycl.src.translators.matrix_of_cell_identifiers_token_translator import \
             MatrixOfCellIdentifiersTokenTranslator
 
-        left, right = token.operands
+        # A&B&C joins the areas element by element, from left to right; a single area stays what it is
+        first, *others = token.operands
+        code = MatrixOfCellIdentifiersTokenTranslator.translate(first, excel, context)
+        for other in others:
+            other_code = MatrixOfCellIdentifiersTokenTranslator.translate(other, excel, context)
+            code = f'self._concat_arrays_values(self._flatten_list({code}), self._flatten_list({other_code}))'
 
-        list1 = MatrixOfCellIdentifiersTokenTranslator.translate(left, excel, context)
-        list2 = MatrixOfCellIdentifiersTokenTranslator.translate(right, excel, context)
-
-        return context.set_sub_cell(
-            token.in_cell, f'self._concat_arrays_values(self._flatten_list({list1}), self._flatten_list({list2}))'
-        )
+        return context.set_sub_cell(token.in_cell, code)
